@@ -3,6 +3,7 @@
  * with the virtual clock, the call log and the fault/crash oracle of wrap.c. */
 #include "kdrv.h"
 #include <pwd.h>
+#include <sys/resource.h>
 #include <sys/time.h>
 
 static struct handler *H;
@@ -158,6 +159,8 @@ static void print_trace(void) {
   printf("\n");
 }
 
+static rlim_t g_nofile_soft;
+static int g_nofile_saved;
 static long afail_rel = -1; /* oracle afail k: the k-th allocation of the next operation fails */
 static long op_alloc_base;
 
@@ -259,6 +262,13 @@ int drv_world(void) {
       }
       if (d) {
         closedir(d);
+      }
+      if (g_nofile_saved) {
+        struct rlimit rl;
+        if (!getrlimit(RLIMIT_NOFILE, &rl)) {
+          rl.rlim_cur = g_nofile_soft;
+          setrlimit(RLIMIT_NOFILE, &rl);
+        }
       }
       long fds = W.open_fds;
       wrap_reset();
@@ -368,6 +378,11 @@ int drv_world(void) {
       char *p = abspath(t[1]);
       chmod(p, atoi(t[2]) ? 0644 : 0);
       free(p);
+    } else if (!strcmp(op, "chmodx")) {
+      /* chmodx <path> <octal mode>: any mode, directories included (implementation-only histories) */
+      char *p = abspath(t[1]);
+      chmod(p, strtoul(t[2], NULL, 8));
+      free(p);
     } else if (!strcmp(op, "start")) {
       /* start <cfgid> <cpl> <cfgpath> */
       cpl = strtoul(t[2], NULL, 10);
@@ -420,6 +435,21 @@ int drv_world(void) {
       }
     } else if (!strcmp(op, "dump")) {
       dump();
+    } else if (!strcmp(op, "nofile")) {
+      /* the soft limit on open descriptors of this process (the environment's, not a failing call): a daemon that
+         holds a bounded number of descriptors never notices; restored by the next "case" */
+      struct rlimit rl;
+      if (!getrlimit(RLIMIT_NOFILE, &rl)) {
+        if (!g_nofile_saved) {
+          g_nofile_soft = rl.rlim_cur;
+          g_nofile_saved = 1;
+        }
+        rl.rlim_cur = strtoul(t[1], NULL, 10);
+        if (rl.rlim_cur > rl.rlim_max) {
+          rl.rlim_cur = rl.rlim_max;
+        }
+        setrlimit(RLIMIT_NOFILE, &rl);
+      }
     } else if (!strcmp(op, "live")) {
       printf("X fds %ld live %ld allocs %ld\n", W.open_fds, W.live_blocks, W.nallocs - op_alloc_base);
     } else {
